@@ -373,4 +373,5 @@ def run(ctx):
     r_par(ctx, gen)
     # the statement refers to C01 ("a forest satisfying C01"): C01's structural clauses are re-checked by this check too
     from props import C01
-    C01.rules(ctx)
+    import premises
+    premises.forest(ctx)
